@@ -84,13 +84,13 @@ class Check:
         self.crashed = None
 
     # ------------------------------------------------------------------ deductive part
-    def prove(self, contract_modules, targets=None, timeout_s=None):
+    def prove(self, contract_modules, targets=None, timeout_s=None, serve=None):
         """generate and discharge the obligations of all contracts serving this property"""
         from . import VC
         for m in contract_modules:
             importlib.import_module("contracts." + m)
         eng = VC()
-        cons = [c for c in C.REGISTRY.values() if c.verify and (self.prop in c.props) and (targets is None or c.target in targets)]
+        cons = [c for c in C.REGISTRY.values() if c.verify and (set(serve or [self.prop]) & set(c.props)) and (targets is None or c.target in targets)]
         for con in cons:
             try:
                 ok = eng.verify_target(con)
